@@ -617,4 +617,29 @@ theorem cqm_file_roundtrip_closed (crc32 : Bytes → Nat) (inflate : Bytes → O
   simp only [hc, hl]
   rfl
 
+/-- **the constants of the model are the constants of the source** (regenerated into `Generated/FileConsts.lean` by
+    `harness/translators/fileconsts.py` on every run: `ast` over `ConstrainedQuadraticModel.to_file / from_file`,
+    `DiscreteQuadraticModel._to_file_numpy`, `make_header`, `Section.dumps`, the loaders' version tests; the
+    `Vartype` enum of `vartypes.h`; the record signatures and sizes of the `zipfile` module in use): 64-byte
+    alignment of headers and sections; the archive member names in the order `to_file` writes them, which of them
+    are written with `force_zip64`, the names `from_file` asks for; the npz array names in `np.savez` order; the
+    expression type names; `ZIP_STORED` / `ZIP_DEFLATED`; the three ZIP record signatures and fixed sizes; the
+    vartype code of `REAL`.  A change of any of them in the source breaks this theorem (and `lake build`). -/
+theorem format_constants_from_source (c : DqmContent) :
+    Gen.headerAlign = 64 ∧ Gen.sectionAlign = 64 ∧
+    Gen.cqmMemberNames = [nmVarinfo, nmLabels, nmObjective, constraintPath ['{', '}'] fLhs, constraintPath ['{', '}'] fRhs,
+      constraintPath ['{', '}'] fSense, constraintPath ['{', '}'] fDiscrete, constraintPath ['{', '}'] fWeight,
+      constraintPath ['{', '}'] fPenalty] ∧
+    Gen.cqmZip64Members = [nmObjective, constraintPath ['{', '}'] fLhs] ∧
+    (∀ n ∈ Gen.cqmReadNames, n ∈ Gen.cqmMemberNames) ∧
+    (dqmMembers c).map (·.name) = Gen.npzArrayNames ∧
+    Gen.exprTypeObjective = tObjective.toList ∧ Gen.exprTypeConstraint = tConstraint.toList ∧
+    Gen.zipStoredMethod = 0 ∧ Gen.cqmCompressMethod = 8 ∧
+    Gen.eocdSignature = sigEOCD ∧ Gen.eocdSize = 22 ∧ Gen.localHeaderSignature = sigLocal ∧ Gen.localHeaderSize = 30 ∧
+    Gen.centralDirSignature = sigCD ∧ Gen.centralDirSize = 46 ∧
+    Gen.vartypeNames.length = 4 ∧ Gen.vartypeNames[vtREAL.toNat]? = some ['R', 'E', 'A', 'L'] ∧
+    Gen.qmVersion = [1, 0] ∧ Gen.dqmVersion = [1, 1] ∧ Gen.bqmVersionLimit = 3 ∧ Gen.dqmVersionLimit = 2 := by
+  refine ⟨by decide, by decide, by decide, by decide, by decide, by simp [dqmMembers, mStarts, mLinear, mRow, mCol, mQuad, mOffset]; decide, by decide, by decide, by decide, by decide, by decide,
+    by decide, by decide, by decide, by decide, by decide, by decide, by decide, by decide, by decide, by decide, by decide⟩
+
 end C09
